@@ -178,8 +178,9 @@ int World::compose_batch(void *events_v, int maxevents) {
 int World::on_epoll_wait(int epfd, void *events, int maxevents, int timeout) {
 	(void)epfd; (void)timeout;
 	in_daemon = false;
-	if (!started) { started = true; record_baseline(); for (size_t i = 0; i < 1 && !plan.ops.empty(); i++) schedule(now + plan.ops[0].dt, EV_OP, 0); next_op = 0; if (plan.ops.empty()) phase = 1; }
+	if (!started) { started = true; record_baseline(); { const JV *rel = plan.hdr.get("allocfail_rel"); if (rel && rel->t == JV::Arr) for (auto &x : rel->a) g_arena.fail_at.insert(g_arena.nallocs + (uint64_t)x.d); } for (size_t i = 0; i < 1 && !plan.ops.empty(); i++) schedule(now + plan.ops[0].dt, EV_OP, 0); next_op = 0; if (plan.ops.empty()) phase = 1; }
 	turn_end();
+	shadow_mark();
 	if (sigterm_sent) {
 		if (++epoll_after_sigterm > 3) { violation("C07", "no-exit-on-sigterm", "daemon keeps waiting for events after the termination signal"); }
 		errno = EINTR; in_daemon = true; return -1;
@@ -308,6 +309,7 @@ int World::on_accept(KFd &k, void *addr_v, unsigned *addrlen) {
 	if (addr_v && addrlen) { socklen_t m = std::min<socklen_t>(n, *addrlen); memcpy(addr_v, &ss, m); *addrlen = n; }
 	trace.tag("accept"); trace.u64(ci);
 	if (mode == "exact") model.on_connect(ci, cl.transport, cl.origin_local);
+	if (shadow_enabled) { Input in; in.t = Input::CONN; in.c = ci; in.text = cl.transport; in.fd = cl.origin_local ? 1 : 0; if (shadow_active) shadow_apply(cands, in, false); shadow_mark(); }
 	probe("accepted:" + cl.transport);
 	return s.fd;
 }
@@ -315,6 +317,7 @@ int World::on_accept(KFd &k, void *addr_v, unsigned *addrlen) {
 long World::on_read(KFd &k, void *buf, size_t n) {
 	feed_batch_errors_before(k.fd);
 	flush_pending();
+	shadow_mark();
 	if (k.kind == FD_TIMER) {
 		if (k.expirations == 0) { errno = EAGAIN; return -1; }
 		if (n < 8) { errno = EINVAL; return -1; }
@@ -420,6 +423,7 @@ void World::on_close(KFd &k) {
 			else if (mode == "exact" && !cl->no_expect) { if (!match_close(*cl)) {
 				violation("C02", "unexpected-close", "daemon closed connection c" + std::to_string(cl->idx) + " (" + cl->transport + ") although nothing it sent or suffered justifies that"); } }
 			else cl->expq.clear();
+			if (shadow_active && !sigterm_sent) { flush_pending(); Input in; in.t = Input::GONE; in.c = cl->idx; in.why = "released by the daemon"; shadow_log(in); }
 			cl->daemon_closed = true;
 		}
 	} else if (k.kind == FD_TIMER) {
@@ -449,16 +453,20 @@ void World::on_log(int pri, const std::string &line) {
 	if (logs.size() < 200) logs.push_back(line);
 	dbg("log: %s", line.c_str());
 	trace.tag("log");
+	// the daemon's own heap cap refused an allocation: the same situation as an injected failure, reached by ordinary client activity
+	if (started && !done && line.find("Maximum allowed heap size exceeded") != std::string::npos) { probe("fault:heap_cap_refusal"); on_alloc_fail(0); }
 	scan_secret("log line", line.data(), line.size());
 }
 
 void World::on_alloc_fail(uint64_t index) {
 	trace.tag("allocfail"); trace.u64(index);
 	fault_turn = (long)res.st.batches; faults_fired++;
-	probe("fault:alloc_failed");
+	if (index) probe("fault:alloc_failed");
 	if (!started) probe("alloc_failed_during_startup");
 	// the outcome of whatever is being processed now is not predictable: requests outstanding at this moment may stay unanswered (never answered twice)
 	if (mode == "exact") { for (auto &cl : clients) cl.expq.clear(); flush_pending(); mode = "ledger"; }
+	else if (shadow_active) flush_pending();
+	shadow_fork();
 }
 
 void World::password_changed(const std::string &user, const std::string &oldpw, const std::string &newpw, bool tentative) {
